@@ -1,4 +1,5 @@
 //! Generators / writers shared between properties (perf.data, ELF64, Breakpad .sym, …).
 pub mod elf;
-pub mod perfdata;
 pub mod elf_ids;
+pub mod elf_syms;
+pub mod perfdata;
